@@ -103,6 +103,7 @@ type cfg struct {
 	vlogpct   bool // dynamic threshold (VLogPercentile)
 	lsmonly   bool // value threshold at the transaction size limit: everything inline
 	thrup     bool // value threshold 32, raised to 512 by the first re-open (like thr otherwise)
+	lim       bool // value sizes 8, T-1 and T for the configured ValueThreshold T (T = the in-memory value limit, inclusive)
 	compress  options.CompressionType
 	levels    int
 	sync      bool
@@ -132,6 +133,8 @@ func parseConfig(name string, seed int64) cfg {
 			c.lsmonly = true
 		case "thrup":
 			c.thr, c.thrup = true, true
+		case "lim":
+			c.lim = true
 		case "zstd":
 			c.compress = options.ZSTD
 		case "snappy":
@@ -831,6 +834,9 @@ func main() {
 	pctSizes := []int{8, 31, 33, 185, 186, 187, 339, 340, 493, 646, 647, 800, 1200, 3000}
 	r.valSize = func(val int) int {
 		switch {
+		case c.lim:
+			t := int(vh.SmallOptions("").ValueThreshold)
+			return []int{8, t - 1, t}[val%3]
 		case c.vlogpct:
 			return pctSizes[val%len(pctSizes)]
 		case c.thr:
